@@ -46,9 +46,9 @@ type edit struct {
 
 // funcs replaced by name: package path -> func -> verifsim func
 var funcSeams = map[string]map[string]string{
-	"io/ioutil": {"ReadFile": "ReadFile", "WriteFile": "WriteFile"},
+	"io/ioutil": {"ReadFile": "ReadFile", "WriteFile": "WriteFile", "TempFile": "CreateTemp"},
 	"os": {"ReadFile": "ReadFile", "WriteFile": "WriteFile", "Getwd": "Getwd", "Open": "Open",
-		"Create": "Create", "OpenFile": "OpenFile", "Rename": "Rename", "Remove": "Remove",
+		"Create": "Create", "OpenFile": "OpenFile", "CreateTemp": "CreateTemp", "Rename": "Rename", "Remove": "Remove",
 		"Getpid": "Getpid", "Hostname": "Hostname"},
 	"time": {"Now": "Now"},
 }
